@@ -383,6 +383,8 @@ pub fn run_docs(case: &Value, seed: u64) -> Outcome {
     o.key = cls.join("");
     o.nontrivial = true;
     let junk = case["j"].as_bool() == Some(true);
+    let hk = conc::hash64(&o.key);
+    if hk % 3000 == 0 { o.count("big_paragraphs"); big_paragraphs(&mut o, case, hk % 12000 == 0); }
     let mut seen = std::collections::HashSet::new();
     for m in 0..super::nmaps() {
         let text = conc::deb822_text(&cls, m, seed, conc::hash64(&o.key));
@@ -465,6 +467,44 @@ pub fn casefile() -> &'static std::collections::HashMap<u64, (String, String)> {
     })
 }
 
+/// MANY fields / continuation lines / comment lines in one paragraph (called from the files stage and, for a sample of
+/// cases, from the documents stage)
+fn big_paragraphs(o: &mut Outcome, case: &Value, full: bool) {
+    // MANY fields in one paragraph / MANY continuation lines in one field / many comment lines (300, 5000, 70000 of
+    // each): well-formed by construction, so both readers accept them and report exactly those fields and lines
+    {
+        for n in [300usize, 5000, 70000] {
+            if !full && n > 5000 { continue; }
+            let many_fields: String = (0..n).map(|i| format!("F{}: v{}\n", i, i)).collect();
+            let many_lines: String = format!("Files:\n{}Last: x\n", (0..n).map(|i| format!(" line{}\n", i)).collect::<String>());
+            let many_comments: String = format!("A: 1\n{}B: 2\n", "# c\n".repeat(n));
+            for (what, t, nf, last) in [("many_fields", &many_fields, n, format!("v{}", n - 1)), ("many_continuation_lines", &many_lines, 2, "x".to_string()), ("many_comments", &many_comments, 2, "2".to_string())] {
+                let feats = vec!["scaled".to_string(), what.to_string()];
+                if full { observe_text(o, case, t, &feats, false); }
+                o.evals += 1;
+                match guarded("Deb822::from_str", || Deb822::from_str(t).map(|d| d.paragraphs().map(|p| p.items().collect::<Vec<_>>()).collect::<Vec<_>>())) {
+                    Ok(Ok(ps)) => {
+                        let ok = ps.len() == 1 && ps[0].len() == nf && ps[0].last().map(|(_, v)| v.as_str()) == Some(last.as_str())
+                            && (what != "many_continuation_lines" || ps[0][0].1.split('\n').filter(|l| !l.is_empty()).count() == n);
+                        if !ok { o.v("C03", "content", "Deb822::from_str", "mismatch", &feats, &t[..200.min(t.len())], format!("{}: {} paragraphs, {} fields in the first", what, ps.len(), ps.first().map(|p| p.len()).unwrap_or(0))); }
+                    }
+                    Ok(Err(e)) => o.v("C03", "accept", "Deb822::from_str", "mismatch", &feats, &t[..200.min(t.len())], format!("{} ({}): well-formed document rejected: {}", what, n, e.to_string().chars().take(200).collect::<String>())),
+                    Err(m) => o.v("C02", "total", "Deb822::from_str", "panic", &feats, &t[..200.min(t.len())], m),
+                }
+                match guarded("lossy::Deb822::from_str", || deb822_lossless::lossy::Deb822::from_str(t).map(|d| d.iter().map(|p| p.iter().map(|(k, v)| (k.to_string(), v.to_string())).collect::<Vec<_>>()).collect::<Vec<_>>())) {
+                    Ok(Ok(ps)) => {
+                        let ok = ps.len() == 1 && ps[0].len() == nf && ps[0].last().map(|(_, v)| v.as_str()) == Some(last.as_str())
+                            && (what != "many_continuation_lines" || ps[0][0].1.split('\n').filter(|l| !l.is_empty()).count() == n);
+                        if !ok { o.v("C06", "agree", "lossy::Deb822::from_str", "mismatch", &feats, &t[..200.min(t.len())], format!("{}: {} paragraphs, {} fields in the first", what, ps.len(), ps.first().map(|p| p.len()).unwrap_or(0))); }
+                    }
+                    Ok(Err(e)) => o.v("C06", "accept_wf", "lossy::Deb822::from_str", "mismatch", &feats, &t[..200.min(t.len())], format!("{} ({}): well-formed document rejected by the lossy reader: {}", what, n, e.to_string().chars().take(200).collect::<String>())),
+                    Err(m) => o.v("C02", "total", "lossy::Deb822::from_str", "panic", &feats, &t[..200.min(t.len())], m),
+                }
+            }
+        }
+    }
+}
+
 pub fn run_files(case: &Value, _seed: u64) -> Outcome {
     let mut o = Outcome::default();
     let id = case["id"].as_u64().unwrap_or(0);
@@ -535,6 +575,7 @@ pub fn run_files(case: &Value, _seed: u64) -> Outcome {
         t.push_str("Last-Key: the end\n");
         observe_text(&mut o, case, &t, &feats, false);
     }
+    if id == 1 || id == 2 { big_paragraphs(&mut o, case, id == 1); }
     o.sample = json!({"source": src, "text": text.chars().take(120).collect::<String>(), "model_errors": case["e"], "model_lossy": case["ls"]});
     o
 }
